@@ -116,9 +116,20 @@ pub fn run(pid: &str, tier: &str, seed: u64, corpus: &str) -> bool {
     let mut r = Rng::new(seed ^ hash_str(pid));
     let replay_only = tier == "replay";
     match pid {
+        "C01" => crate::f_astro::c01(&mut ctx, tier, &mut r, &js, &reqs, replay_only),
+        "C02" => crate::f_astro::c02(&mut ctx, tier, &mut r, &js, &reqs, replay_only),
+        "C03" => crate::f_astro::c03(&mut ctx, tier, &mut r, &js, &reqs, replay_only),
+        "C04" => crate::f_astro::c04(&mut ctx, tier, &mut r, &js, &reqs, replay_only),
+        "C05" => crate::f_astro::c05(&mut ctx, tier, &mut r, &js, &reqs, replay_only),
+        "C06" => crate::f_astro::c06(&mut ctx, tier, &mut r, &js, &reqs, replay_only),
+        "C13" => crate::f_astro::c13(&mut ctx, tier, &mut r, &js, &reqs, replay_only),
+        "C20" => crate::f_astro::c20(&mut ctx, tier, &mut r, &js, &reqs, replay_only),
         "C07" => crate::f_policy::c07(&mut ctx, tier, &mut r, &js, &reqs, replay_only),
         "C08" => crate::f_policy::c08(&mut ctx, tier, &mut r, &js, &reqs, replay_only),
         "C09" => crate::f_goodday::c09(&mut ctx, tier, &mut r, &js, &reqs, replay_only),
+        "C10" => crate::f_params::c10(&mut ctx, tier, &mut r, &js, &reqs, replay_only),
+        "C12" => crate::f_params::c12(&mut ctx, tier, &mut r, &js, &reqs, replay_only),
+        "C16" => crate::f_params::c16(&mut ctx, tier, &mut r, &js, &reqs, replay_only),
         "C11" => crate::f_policy::c11(&mut ctx, tier, &mut r, &js, &reqs, replay_only),
         "C14" => crate::f_range::c14(&mut ctx, tier, &mut r, &js, &reqs, replay_only),
         "C17" => crate::f_hijri::c17(&mut ctx, tier, &mut r, &js, &reqs, replay_only),
